@@ -19,13 +19,13 @@ import (
 // c04 generator (control flow, try/except/otherwise/finally)
 
 type gen4 struct {
-	rt      *rapid.T
-	mark    int
-	nvar    int
-	nfunc   int
-	funcs   []string // defined function names with their arity
-	arity   map[string]int
-	budget  int
+	rt     *rapid.T
+	mark   int
+	nvar   int
+	nfunc  int
+	funcs  []string // defined function names with their arity
+	arity  map[string]int
+	budget int
 }
 
 func (g *gen4) pick(n int, l string) int { return rapid.IntRange(0, n-1).Draw(g.rt, l) }
@@ -324,7 +324,6 @@ func genProg4(rt *rapid.T) *lang.Prog {
 	p.Body = append(p.Body, lang.Rec(lang.Var("a")), lang.Rec(lang.Var("b")))
 	return p
 }
-
 
 // ---------------------------------------------------------------------------
 // c05 generator (scoping, closures, containers, objects)
